@@ -91,7 +91,7 @@ def h_fit_mle(h):
     fam = FAMILIES[h.cfg["family"]]
     S = tuple(p for p in h.cfg["fixed"].split("+") if p)
     d, fixed, start, theta = _mk(h, fam, S)
-    data = h.reals("d", h.cfg["n"], 0.3, 6.0)
+    data = h.reals("d", h.cfg["n"], 2.5, 8.0)  # inside the support for every admissible location
     if h.sym:
         stubs.install_fit()
         d.fit(data, h.cfg.get("method", "mle"))
